@@ -185,6 +185,11 @@ func TestVerifC02Text(t *testing.T) {
 		jobs = append(jobs, base+"route weight sb /p weight "+w+"\nroute weight sa /p weight "+w+"\n")
 		jobs = append(jobs, base+"route weight sb /p weight "+w+"\nroute del sa\n")
 	}
+	// host patterns that are not valid globs, and lines longer than the scanner's token limit
+	for _, h := range []string{"[a", "{a", "a[", "*.[", "foo.com[", "\\"} {
+		jobs = append(jobs, "route add s "+h+"/ http://10.0.0.1:80/\n")
+		jobs = append(jobs, "route add ok foo.com/ http://10.0.0.2:80/\nroute add s "+h+"/x http://10.0.0.1:80/\n")
+	}
 	// (d)
 	for _, l := range []string{"", "\n\n", "route", "route add", "route add a", "route add a b", "route del", "route weight", "route weight a b weight", "route add a b c weight", "route add a b c tags", "route add a b c tags \"", "route add a b c opts \"a b=c d==\"", "# c\n// d", "route add s  /x   http://h/   weight   0.1   tags   \"a , b\"", "route foo", "ROUTE ADD a b c", "route add s \x00 http://h/", "route add s / \x00", "route del s / %zz", "route del tags \"\"", "route add s foo.com:80 tcp://h:1", "route add s :80 tcp://h:1 opts \"proto=tcp\"", strings.Repeat("route add s /p http://h/ weight 0.0001\n", 3), "route add s " + strings.Repeat("a", 70000) + " http://h/"} {
 		jobs = append(jobs, l)
@@ -197,6 +202,27 @@ func TestVerifC02Text(t *testing.T) {
 			L.Sample(strings.Split(strings.TrimSpace(text), "\n"))
 		}
 	})
+	// a configuration is applied completely or rejected - never silently cut short
+	for _, n := range []int{100, 60000, 70000, 200000} {
+		long := "route add long /" + strings.Repeat("a", n) + " http://10.0.0.1:80/"
+		text := "route add first /first http://10.0.0.2:80/\n" + long + "\nroute add last /last http://10.0.0.3:80/\n"
+		L.Case()
+		var tbl Table
+		var err error
+		msg, _, pan := ev.Guard(func() { tbl, err = vfTable(text) })
+		d := map[string]interface{}{"config": []string{"route add first /first ...", fmt.Sprintf("route add long /<%d x a> ...", n), "route add last /last ..."}}
+		if pan {
+			d["panic"] = msg
+			L.Violation("text/build-panic:long-line", d)
+			continue
+		}
+		if err == nil {
+			L.NontrivialKey(fmt.Sprint("long", n))
+			if tbl[""].find("/last") == nil || tbl[""].find("/first") == nil {
+				L.Violation("text/config-silently-truncated-at-a-long-line", d)
+			}
+		}
+	}
 	// (e) the custom backend path: JSON -> *[]RouteDef -> NewTableCustom
 	var cjobs []string
 	for _, js := range []string{`null`, `[]`, `[{}]`, `[{"cmd":"route add"}]`, `[{"cmd":"route add","service":"s","src":"/p","dst":"http://h/"}]`,
